@@ -14,21 +14,23 @@ TECHNIQUE = ("Coq proofs (induction on the digit loops; Flocq binary64 for the f
              "differential execution (extracted OCaml vs the real templates/functions under ASan/UBSan, texts and "
              "double bit patterns compared exactly); oracle = canonical decimal / exact inverse for integers, correct "
              "rounding and half-ulp distance in exact integer arithmetic for doubles")
-LEVEL_TEXT = ("Integers: for every int32 the modelled itoa yields the canonical decimal text (INT_MIN included) and for "
-              "every non-negative int32 / every uint32 / every uint16 the modelled fast_atoi returns the value back (the unsigned "
-              "parsers on arbitrary text); for negative values the exact (wrong) result is characterised and shown different from "
-              "the value except for one int32; under the C++ rules (overflow-checked model) the parse of [2147483600, INT_MAX] is a "
-              "signed overflow and of every negative int a shift of a negative value.  Doubles: the general round-trip law is "
-              "refuted by kernel-checked witnesses (tie-branch roll-over, double rounding, inexact parser, exponential format and "
-              "int overflow just below 2^31); proved: every integral double below 2^31 renders as its decimal and parses back "
-              "bit-exactly at every precision 0..9; for every finite double every rendered text has the shape "
-              "[-]digits[.digits] with 1..p fraction digits, and inside the 2^31-1 threshold a text is always produced.")
+LEVEL_TEXT = ("Integers (fast_atoi as repaired by a8219b1), full strength: for EVERY int32 v, INT_MIN and INT_MAX included, the "
+              "modelled itoa yields the canonical decimal text and the modelled fast_atoi<int> parses it back to v with every "
+              "intermediate int operation in range (overflow-checked model: no undefined behaviour); every uint32 likewise; on "
+              "arbitrary text all three instantiations return the value whenever the text is a canonical decimal of the type; "
+              "witnesses that the routine before the repair failed (-5 -> -25, signed overflow on INT_MAX).  Doubles: the general "
+              "round-trip law is refuted by kernel-checked witnesses (tie-branch roll-over, double rounding, inexact parser, "
+              "exponential format and int overflow just below 2^31); proved: every integral double below 2^31 renders as its "
+              "decimal and parses back bit-exactly at every precision 0..9 (accepted by the oracle); for every finite double every "
+              "rendered text has the shape [-]digits[.digits] with 1..p fraction digits and inside the 2^31-1 threshold a text is "
+              "always produced; when the tie test diff == 0.5 is false the rounding stage yields the nearest integer; precision 0 "
+              "is always correctly rounded (half-even).")
 LEVEL_NOTE = ("Trusted: Coq kernel, Flocq 4.1.0 (binary64 operations; its Reals axioms), extraction (ExtrOcamlBasic), the "
               "hand transcriptions (checked by the correspondence run), x86-64 SSE2 double arithmetic (round to nearest "
-              "even, no x87 excess precision, no FMA contraction), char signed, the harness is compiled with -fwrapv and "
-              "without the shift/signed-overflow sanitizers so that fast_atoi<int>'s two's-complement result on negative "
-              "text is observable.")
-DESIGN_REF = "DESIGN.md section 4, C08; findings F01, F02, F03 (section 5)"
+              "even, no x87 excess precision, no FMA contraction), char signed; one fully sanitized harness build "
+              "(ASan + UBSan incl. shift and signed-overflow checks): an undefined int operation inside fast_atoi stops "
+              "the process and is compared with the overflow-checked model's UB outcome.")
+DESIGN_REF = "DESIGN.md section 4, C08; findings F01 (fixed by a8219b1), F02, F03 (section 5)"
 PROPS_FILE = "Props/Properties_C08.v"
 COQ_TARGETS = ["Props/Properties_C08.vo", "Extract/Extract_C08.vo"]
 TRUSTED_BASE = [
@@ -42,15 +44,16 @@ TRUSTED_BASE = [
     "coq/C08/NumFloat.v (modp_dtoa of runtime/modp_numtoa.c, fast_atof of f8utils.hpp), tied by differential execution",
     "ocaml/prelude.ml + ocaml/c08_driver.ml (text and bit-pattern conversion), harness/h_c08.cpp, vlib (generators, comparison, "
     "finding classifiers in vlib/suites/c08.py)",
-    "g++ 12, x86-64 SSE2 arithmetic; harness flags -fwrapv -fno-sanitize=shift,signed-integer-overflow (other ASan/UBSan checks on)",
+    "g++ 12, x86-64 SSE2 arithmetic; harness built with the framework's default sanitizer flags (no -fwrapv): UBSan reports "
+    "signed overflow / invalid shifts in the fast_atoi template",
 ]
 ASSUMPTIONS = [
     "double arithmetic of the build is IEEE binary64 round-to-nearest-even without excess precision or fused multiply-add",
     "the in-place character reversal at the end of itoa/modp_dtoa is modelled as list reversal",
     "for |value| > 2^31-1 modp_dtoa calls sprintf(\"%e\"): glibc's output is not modelled, both sides are reduced to the token EXP",
-    "fast_atoi<int> on text with a '-' or on overflow is formally undefined (shift of a negative value / signed overflow); the "
-    "two's-complement result produced by the compiler under -fwrapv is what is modelled; in the strict (UBSan) run the model "
-    "admits both observable outcomes of such an operation, the sanitizer trap and the wrapped value",
+    "fast_atoi<int> on texts whose value leaves int is undefined behaviour: the model (every int operation checked in "
+    "evaluation order) yields the outcome UB there, the sanitized build a UBSan report inside fast_atoi; which operation is "
+    "reported first is not compared",
 ]
 RULE = ("integers: boundaries (0, +-1, INT_MIN/MAX, UINT_MAX, 65535/6), powers of ten and of two +-1, random values of every "
         "digit count, both signs; raw parser texts (digits, signs, leading zeros, other bytes, SOH-terminated); doubles: for each "
@@ -59,15 +62,9 @@ RULE = ("integers: boundaries (0, +-1, INT_MIN/MAX, UINT_MAX, 65535/6), powers o
         "(>= 2^31, inf, nan, precision outside 0..9) and raw parser texts incl. exponents and malformed bytes. "
         "non-trivial = integer with >= 2 digits / parser text >= 2 bytes / non-zero in-domain double; distinct = distinct case lines")
 
-HARNESS_EXTRA = ["-fwrapv", "-fno-sanitize=shift,signed-integer-overflow"]
-
-
 def build(tier):
-    # two builds of the same harness: the relaxed one (-fwrapv, shift/overflow sanitizers off) shows
-    # WHICH value fast_atoi<int> produces where the C++ rules are broken; the strict one (all default
-    # sanitizers) shows THAT they are broken (cases "itoaS")
-    return {"impl": [B.harness("h_c08", runtime=["modp_numtoa.c"], extra=HARNESS_EXTRA)],
-            "impl_strict": [B.harness("h_c08", runtime=["modp_numtoa.c"])]}
+    # one fully sanitized build (framework default flags): since a8219b1 nothing needs -fwrapv any more
+    return {"impl": [B.harness("h_c08", runtime=["modp_numtoa.c"])]}
 
 
 UB_RE = re.compile(r"([^\s:]+):(\d+):\d+: (runtime error: [^\n]*)")
@@ -110,15 +107,7 @@ def run_batch(argv, lines):
 
 
 def run_impl(built, cases, tier):
-    strict = [k for k, c in enumerate(cases) if c.line.startswith("itoaS ")]
-    relaxed = [k for k, c in enumerate(cases) if not c.line.startswith("itoaS ")]
-    out = [None] * len(cases)
-    for idx, exe in ((relaxed, built["impl"]), (strict, built["impl_strict"])):
-        if idx:
-            res = run_batch(exe, [cases[k].line for k in idx])
-            for k, r in zip(idx, res):
-                out[k] = r
-    return out
+    return run_batch(built["impl"], [c.line for c in cases])
 
 
 # ------------------------------------------------------------------------------ helpers
@@ -150,10 +139,6 @@ def step(d, n):
 
 def I(v):
     return Case("itoa %d" % v, "itoa")
-
-
-def IS(v):
-    return Case("itoaS %d" % v, "itoa-strict")
 
 
 def U(v):
@@ -217,19 +202,17 @@ def gen_int(rng, tier):
         cs.append(I(v if rng.random() < 0.6 else -v))
     for _ in range(500 if thorough else 60):
         cs.append(I(rng.randrange(INT_MIN, INT_MAX + 1)))
-    # the same round trip in the strict (UBSan) build: the edge of the signed overflow in the last
-    # digit (v + 48 > INT_MAX from 2147483600 on) and a few negatives; every breaking case costs a
-    # process restart, so only a handful of those
-    for v in (0, 7, 10, 99, 12345, 999999999, 1000000000, 2147483590, 2147483598, 2147483599, 2147483600, 2147483601,
-              2147483609, 2147483610, 2147483639, 2147483640, INT_MAX - 1, INT_MAX, -1, -5, -10, INT_MIN, -2115098112):
-        cs.append(IS(v))
-    for _ in range(300 if thorough else 60):
-        cs.append(IS(rand_digits(rng, rng.randrange(1, 10))))
+    # the edge that used to overflow in the last digit (v + 48 > INT_MAX from 2147483600 on) and the
+    # accumulate-down edge at INT_MIN
+    for v in (2147483590, 2147483598, 2147483599, 2147483600, 2147483601, 2147483609, 2147483610, 2147483639,
+              2147483640, 2147483646, -2147483590, -2147483599, -2147483600, -2147483601, -2147483639, -2147483640,
+              -2147483641, -2147483647):
+        cs.append(I(v))
+    for _ in range(200 if thorough else 25):
+        cs.append(I(rng.randrange(2147483600, INT_MAX + 1)))
+        cs.append(I(-rng.randrange(2147483600, INT_MAX + 2)))
     for _ in range(300 if thorough else 40):
-        cs.append(IS(rng.randrange(10 ** 9, 2147483600)))
-    for _ in range(12 if thorough else 3):
-        cs.append(IS(rng.randrange(2147483600, INT_MAX + 1)))
-        cs.append(IS(max(INT_MIN, -max(1, rand_digits(rng, rng.randrange(1, 11))))))
+        cs.append(I(rng.choice((1, -1)) * rng.randrange(10 ** 9, 2147483600)))
     uvals = {0, 1, 9, 10, UINT_MAX, UINT_MAX - 1, 2 ** 31, 2 ** 31 - 1, 2 ** 31 + 1, 4 * 10 ** 9, 4294967290}
     for k in range(1, 10):
         for d in (-1, 0, 1):
@@ -250,7 +233,7 @@ def gen_atoi(rng, tier):
     cs = []
     fixed = ["0", "1", "9", "10", "007", "0000", "65535", "65536", "65537", "99999", "2147483647", "2147483648",
              "4294967295", "4294967296", "4294967297", "9999999999", "12345678901", "-1", "-5", "-10", "-2147483648",
-             "-2147483647", "-2115098112", "-0", "+5", " 5", "5 ", "1.5", "12a", "a", "-", "--1", "1-1", "", "3e2",
+             "-2147483647", "-2115098112", "-2147483649", "-9999999999", "-007", "-00", "-0", "+5", " 5", "5 ", "1.5", "12a", "a", "-", "--1", "1-1", "", "3e2",
              "\x7f", "\xff1", "1\x80", "\xb0"]
     for t in fixed:
         for ty in "ius":
@@ -270,9 +253,11 @@ def gen_atoi(rng, tier):
             v = min(rand_digits(rng, nd), hi)
             t = str(v)
         elif mode == 3:    # leading zeros / out of range digits
-            t = "0" * rng.randrange(0, 3) + str(rng.randrange(0, 10 ** rng.randrange(1, 13)))
-        elif mode == 4:    # negative
-            t = "-" + str(rand_digits(rng, rng.randrange(1, 10)))
+            # (for int, values beyond INT_MAX stop the sanitized process: each costs a restart, keep them few)
+            t = "0" * rng.randrange(0, 3) + str(rng.randrange(0, 10 ** rng.randrange(1, 11 if ty == "i" else 13)))
+        elif mode == 4:    # negative (canonical for int up to INT_MIN, wrap-around for the unsigned types)
+            v = rand_digits(rng, rng.randrange(1, 11))
+            t = "-" + str(min(v, 2 ** 31) if ty == "i" and rng.random() < 0.9 else v)
         else:              # arbitrary bytes
             t = bytes(rng.choice((rng.randrange(48, 58), rng.randrange(1, 256))) for _ in range(rng.randrange(0, 9)))
         cs.append(A(ty, 0, t, "atoi-digits" if mode <= 3 else "atoi-neg" if mode == 4 else "atoi-bytes"))
@@ -426,7 +411,7 @@ def postprocess(case, r):
     # value > 2^31-1: modp_dtoa hands over to sprintf("%e"); glibc's text is not modelled
     if case.line.startswith("dtoa ") and EXP_RE.match(r):
         return "EXP"
-    if case.line.startswith("itoaS ") and r.startswith("CRASH") and "f8utils.hpp" in r:
+    if case.line.startswith(("itoa ", "atoi i ")) and r.startswith("CRASH") and "f8utils.hpp" in r:
         # which rule is reported first depends on how the arithmetic is spelled (shift or multiply):
         # one token for "undefined behaviour reported inside fast_atoi"
         if "left shift of negative value" in r or "signed integer overflow" in r or "left shift of" in r:
@@ -440,7 +425,7 @@ def postprocess(case, r):
 
 def nontrivial(case, r):
     w = case.line.split()
-    if w[0] in ("itoa", "utoa", "itoaS"):
+    if w[0] in ("itoa", "utoa"):
         return abs(int(w[1])) >= 10
     if w[0] == "atoi":
         return len(w[3]) >= 4 and w[3] != "-"
@@ -602,29 +587,6 @@ def dtoa_explained(a, want):
     return want in reasons
 
 
-def c_atoi_negative(case, r, m):
-    w = case.line.split()
-    if w[0] in ("itoa", "itoaS"):
-        v = int(w[1])
-        parts = r.split(" ")
-        # the rendering clause holds, only the parse-back clause fails
-        return INT_MIN <= v < 0 and len(parts) == 2 and parts[0] == str(v) and parts[1] != str(v)
-    if w[0] == "atoi" and w[1] == "i" and w[2] == "0":
-        t = bytes.fromhex(w[3]).decode("latin1") if w[3] != "-" else ""
-        return bool(re.match(r"^-[1-9][0-9]*$", t)) and INT_MIN <= int(t) < 0
-    return False
-
-
-def c_atoi_top_overflow(case, r, m):
-    w = case.line.split()
-    return w[0] == "itoaS" and 2147483600 <= int(w[1]) <= INT_MAX and r == "UB"
-
-
-def c_atoi_neg_shift(case, r, m):
-    w = case.line.split()
-    return w[0] == "itoaS" and INT_MIN <= int(w[1]) < 0 and r == "UB"
-
-
 def c_rollover(case, r, m):
     return dtoa_explained(analyse_dtoa(case, r), "rollover")
 
@@ -654,8 +616,9 @@ def c_atof_inexact(case, r, m):
     return False
 
 
-CLASSIFIERS = {"atoi-negative": c_atoi_negative, "atoi-top-overflow": c_atoi_top_overflow,
-               "atoi-negative-shift": c_atoi_neg_shift, "dtoa-tie-rollover": c_rollover, "dtoa-inexact-half": c_inexact_half,
+# (the integer findings atoi-negative / atoi-top-overflow / atoi-negative-shift are FIXED by a8219b1: no classifier,
+#  their witnesses must simply pass)
+CLASSIFIERS = { "dtoa-tie-rollover": c_rollover, "dtoa-inexact-half": c_inexact_half,
                "dtoa-exp-sliver": c_sliver, "dtoa-whole-overflow": c_overflow, "atof-inexact": c_atof_inexact}
 
 
@@ -667,10 +630,10 @@ def extra_search(rng, seeds, tier):
     out = out[:6000]
     for c in seeds[:30]:
         w = c.line.split()
-        if w[0] in ("itoa", "utoa", "itoaS"):
+        if w[0] in ("itoa", "utoa"):
             v = int(w[1])
             for d in (-2, -1, 1, 2, 10, -10):
-                if (w[0] in ("itoa", "itoaS") and INT_MIN <= v + d <= INT_MAX) or (w[0] == "utoa" and 0 <= v + d <= UINT_MAX):
+                if (w[0] == "itoa" and INT_MIN <= v + d <= INT_MAX) or (w[0] == "utoa" and 0 <= v + d <= UINT_MAX):
                     out.append(Case("%s %d" % (w[0], v + d), "neighbour"))
         elif w[0] == "dtoa":
             d = dbl_of(int(w[2], 16))
